@@ -127,10 +127,18 @@ def gen():
     emit(defs, 'gen_tail_rule', tail_rule)
     def eof_rule():
         f = read_chunk()
-        i = if_with_body(f, 'return None')
-        # the inner `if reached_end or not len(temp_chunks): return None`
+        # the inner `if reached_end or not len(temp_chunks): [check that nothing but white space is pending]; return None`
+        found = [n for n in ast.walk(f) if isinstance(n, ast.If) and src_of(n.body[-1]) == 'return None']
+        if len(found) != 1:
+            raise Unsupported('expected exactly one `if` ending in `return None`, found %d' % len(found))
+        i = found[0]
         if src_of(i.test) != 'reached_end or not len(temp_chunks)':
             raise Unsupported('end-of-file give-up condition changed: %s' % src_of(i.test))
+        pre = i.body[:-1]
+        if pre and not (len(pre) == 1 and isinstance(pre[0], ast.If) and src_of(pre[0].test) == 'len(temp_chunks)' and len(pre[0].body) == 1
+                        and src_of(pre[0].body[0]).replace(' ', '') == 'self.__check_nothing_left(np.concatenate(temp_chunks),self.n_lines_read)'
+                        and not pre[0].orelse):
+            raise Unsupported('unexpected statement before the end-of-file `return None`')
         return ('Definition gen_eof_give_up (reached_end : bool) (n_pending : Z) : bool :=\n'
                 '  orb reached_end (n_pending =? 0).\n')
     emit(defs, 'gen_eof_give_up', eof_rule)
